@@ -149,6 +149,34 @@ func ruleWrapLoop(c *eng.Ctx) {
 					}
 				}
 			}
+			// a bound that a dominating test keeps at or below a constant (if hi-lo > 0xFFFF { return }) cannot be the
+			// maximum of the type either
+			limited := eng.GuardedBy(fn, blk, func(f eng.Fact) bool {
+				op, x, y, ok := f.Cmp()
+				if !ok {
+					return false
+				}
+				for _, side := range [][2]ssa.Value{{x, y}, {y, x}} {
+					if side[0] != bound && !eng.SameValue(side[0], bound) {
+						continue
+					}
+					k, isC := eng.ConstInt(side[1])
+					if !isC || k < 0 || k >= 1<<31 {
+						continue
+					}
+					o := op
+					if side[0] == y {
+						o = eng.Swap(op)
+					}
+					if o == token.LEQ || o == token.LSS || o == token.EQL {
+						return true
+					}
+				}
+				return false
+			})
+			if limited {
+				return
+			}
 			n++
 			c.Viol(R, fmt.Sprintf("%s#loop%d", eng.FuncName(fn), n), b.Pos(), fmt.Sprintf("loop counts a %s up to an inclusive non-constant bound: if the bound is the maximum of the type the counter wraps and the loop does not terminate", bt.Name()))
 		})
